@@ -219,6 +219,127 @@ let run_clone toks =
       | Some _ -> "ERR " ^ hex_of_bytes st.o_file ^ " " ^ pr_trace st.o_trace)
   | _ -> failwith "clone: bad case"
 
+(* ---- dictionary codec / archive ---- *)
+let strip1 (s : string) : string = String.sub s 1 (String.length s - 1)
+
+let dict_of_tokens (toks : string list) : dictionary =
+  match toks with
+  | [ v; c; t; p; z; o; d; m ] ->
+      let params =
+        if strip1 p = "-" then None
+        else match List.map n_of_string (split_on ',' (strip1 p)) with
+          | [ a; b; c'; d'; e; f ] -> Some { p_bits = a; p_min = b; p_max = c'; p_win = d'; p_hashlen = e; p_algo = f }
+          | _ -> failwith "params" in
+      let comp =
+        if strip1 z = "-" then None
+        else match List.map n_of_string (split_on ',' (strip1 z)) with
+          | [ a; b ] -> Some { z_type = a; z_level = b } | _ -> failwith "comp" in
+      let descs =
+        if strip1 d = "-" then []
+        else List.map (fun e -> match String.split_on_char ':' e with
+            | [ cs; a; b; c' ] -> { d_checksum = bytes_of_hex cs; d_archive_size = n_of_string a; d_archive_offset = n_of_string b; d_source_size = n_of_string c' }
+            | _ -> failwith "desc") (split_on ';' (strip1 d)) in
+      let meta =
+        if strip1 m = "-" then []
+        else List.map (fun e -> match String.split_on_char ':' e with [ k; v' ] -> (bytes_of_hex k, bytes_of_hex v') | _ -> failwith "meta") (split_on ';' (strip1 m)) in
+      { dict_version = bytes_of_hex (strip1 v); dict_checksum = bytes_of_hex (strip1 c); dict_total = n_of_string (strip1 t);
+        dict_params = params; dict_comp = comp;
+        dict_order = (if strip1 o = "-" then [] else nlist_of (strip1 o)); dict_descs = descs; dict_meta = meta }
+  | _ -> failwith "dict tokens"
+
+let pr_dict (d : dictionary) : string =
+  let p = match d.dict_params with
+    | Some p -> pr_nlist [ p.p_bits; p.p_min; p.p_max; p.p_win; p.p_hashlen; p.p_algo ] | None -> "-" in
+  let z = match d.dict_comp with Some c -> pr_nlist [ c.z_type; c.z_level ] | None -> "-" in
+  let o = if d.dict_order = [] then "-" else pr_nlist d.dict_order in
+  let ds = if d.dict_descs = [] then "-" else
+      String.concat ";" (List.map (fun x -> hex_of_bytes x.d_checksum ^ ":" ^ string_of_n x.d_archive_size ^ ":" ^ string_of_n x.d_archive_offset ^ ":" ^ string_of_n x.d_source_size) d.dict_descs) in
+  let m = if d.dict_meta = [] then "-" else String.concat ";" (List.map (fun (k, v) -> hex_of_bytes k ^ ":" ^ hex_of_bytes v) d.dict_meta) in
+  "V" ^ hex_of_bytes d.dict_version ^ " C" ^ hex_of_bytes d.dict_checksum ^ " T" ^ string_of_n d.dict_total ^ " P" ^ p ^ " Z" ^ z ^ " O" ^ o ^ " D" ^ ds ^ " M" ^ m
+
+let run_protoenc toks = "OK " ^ hex_of_bytes (encode_dict (dict_of_tokens toks))
+
+let run_protodec toks =
+  match toks with
+  | [ b ] -> (match decode_dict (bytes_of_hex b) with Some d -> "OK " ^ pr_dict d | None -> "ERR")
+  | _ -> failwith "protodec"
+
+(* hash oracle: a table of (input, hash) pairs supplied with the case; unknown inputs hash to zeros *)
+let zeros64 : n list = List.init 64 (fun _ -> N0)
+let hash_oracle (tab : (n list * n list) list) (x : n list) : n list =
+  match List.find_opt (fun (k, _) -> k = x) tab with Some (_, h) -> h | None -> zeros64
+
+let pr_cfg (c : config) : string =
+  (match c.c_algo with ABuzHash -> "B" | ARollSum -> "R" | AFixed -> "F") ^ "," ^ pr_nlist [ c.c_bits; c.c_min; c.c_max; c.c_win ]
+
+let pr_archive hsh (a : archive) : string =
+  let comp = match a.a_comp with None -> "-" | Some (t, l) -> pr_nlist [ t; l ] in
+  let descs = if a.a_descs = [] then "-" else
+      String.concat ";" (List.map (fun d -> hex_of_bytes d.ad_checksum ^ ":" ^ string_of_n d.ad_size ^ ":" ^ string_of_n d.ad_offset ^ ":" ^ string_of_n d.ad_source_size) a.a_descs) in
+  let order = if a.a_order = [] then "-" else
+      String.concat "," (List.map (fun (off, i) -> string_of_n i ^ "@" ^ string_of_n off) (source_chunks a a.a_order N0)) in
+  let meta = if a.a_meta = [] then "-" else String.concat ";" (List.map (fun (k, v) -> hex_of_bytes k ^ ":" ^ hex_of_bytes v) a.a_meta) in
+  "OK hs=" ^ string_of_n a.a_header_size ^ " hc=" ^ hex_of_bytes a.a_header_checksum ^ " off=" ^ string_of_n a.a_data_offset
+  ^ " total=" ^ string_of_n a.a_total ^ " sc=" ^ hex_of_bytes a.a_source_checksum ^ " hl=" ^ string_of_n a.a_hashlen
+  ^ " comp=" ^ comp ^ " cfg=" ^ pr_cfg a.a_cfg ^ " ver=" ^ hex_of_bytes a.a_version ^ " order=" ^ order ^ " descs=" ^ descs
+  ^ " meta=" ^ meta ^ " idx=" ^ pr_index (build_source_index a)
+
+let e_invalid = n_of_int 10
+let run_tryinit toks =
+  match toks with
+  | [ b; hh ] ->
+      let f = bytes_of_hex b in
+      let tab =
+        if hh = "-" then []
+        else begin
+          (* the pair is (archive[..14+dsize+8], hash) *)
+          let arr = Array.of_list f in
+          let dsize = ref 0 in
+          for i = 13 downto 6 do dsize := (!dsize * 256) + int_of_n arr.(i) done;
+          let offs = 14 + !dsize + 8 in
+          [ (List.filteri (fun i _ -> i < offs) f, bytes_of_hex hh) ]
+        end in
+      let hsh = hash_oracle tab in
+      (match try_init hsh (file_read_at f) with
+       | Ok a -> pr_archive hsh a
+       | Err e -> if e = e_invalid then "INVALID" else "READER"
+       | Panic _ -> "PANIC"
+       | OutOfFuel -> "FUEL")
+  | _ -> failwith "tryinit"
+
+let run_compress toks =
+  match toks with
+  | [ a; bits; mn; mx; w; hl; comp; meta; src; srchash; hdrhash; tab ] ->
+      let src = bytes_of_hex src in
+      let entries =
+        if tab = "-" then []
+        else List.map (fun e -> match String.split_on_char '=' e with
+            | [ d; h; c ] -> (bytes_of_hex d, bytes_of_hex h, c) | _ -> failwith "tab") (split_on ';' tab) in
+      let comp_opt = if comp = "-" then None else (match List.map n_of_string (split_on ',' comp) with [ t; l ] -> Some (t, l) | _ -> failwith "comp") in
+      let compf (d : n list) : n list =
+        match List.find_opt (fun (k, _, _) -> k = d) entries with
+        | Some (_, _, c) -> if c = "-" then d else bytes_of_hex c
+        | None -> d in
+      let meta = if meta = "-" then [] else List.map (fun e -> match String.split_on_char ':' e with [ k; v ] -> (bytes_of_hex k, bytes_of_hex v) | _ -> failwith "meta") (split_on ';' meta) in
+      let opts = { o_cfg = config_of a bits mn mx w; o_hashlen = n_of_string hl; o_comp = comp_opt; o_meta = meta; o_version = pKG_VERSION_LIB } in
+      (* the header hash is keyed by the header prefix the model itself builds: two passes *)
+      let htab0 = (src, bytes_of_hex srchash) :: List.map (fun (d, h, _) -> (d, h)) entries in
+      let first = compress_model (hash_oracle htab0) compf src opts in
+      (match first with
+       | Ok bytes0 ->
+           let n = List.length bytes0 in
+           ignore n;
+           (* prefix = everything before the 64 hash bytes of the header; header length from the dict size field *)
+           let arr = Array.of_list bytes0 in
+           let dsize = ref 0 in
+           for i = 13 downto 6 do dsize := (!dsize * 256) + int_of_n arr.(i) done;
+           let offs = 14 + !dsize + 8 in
+           let prefix = List.filteri (fun i _ -> i < offs) bytes0 in
+           let htab = if hdrhash = "-" then htab0 else (prefix, bytes_of_hex hdrhash) :: htab0 in
+           print_outcome hex_of_bytes (compress_model (hash_oracle htab) compf src opts)
+       | o -> print_outcome hex_of_bytes o)
+  | _ -> failwith "compress"
+
 let dispatch (line : string) : string =
   match split_on ' ' line with
   | "hash" :: r -> run_hash r
@@ -227,6 +348,10 @@ let dispatch (line : string) : string =
   | "spec" :: r -> run_spec r
   | "planner" :: r -> run_planner r
   | "clone" :: r -> run_clone r
+  | "protoenc" :: r -> run_protoenc r
+  | "protodec" :: r -> run_protodec r
+  | "tryinit" :: r -> run_tryinit r
+  | "compress" :: r -> run_compress r
   | k :: _ -> failwith ("unknown suite " ^ k)
   | [] -> ""
 
